@@ -29,6 +29,8 @@ type Config struct {
 	Overlay map[string][]byte // file name -> replacement content (self-test mutants)
 	GOOS    string
 	GOARCH  string
+	// RawNames: do not canonicalise local names (used when dumping the reference table)
+	RawNames bool
 }
 
 type Program struct {
@@ -37,6 +39,10 @@ type Program struct {
 	Roots []*packages.Package          // packages of the module under analysis
 	All   map[string]*packages.Package // every loaded package by import path
 	Deps  map[string]string            // module path -> version
+	// Renamed: number of locals given their recorded (pinned-tree) name, see canon.go
+	Renamed    int
+	CanonNotes []string
+	canonName  map[types.Object]string
 
 	ssaProg  *ssa.Program
 	ssaPkgs  map[string]*ssa.Package
@@ -116,6 +122,10 @@ func Load(c Config) (*Program, error) {
 	}
 	if len(p.Roots) == 0 {
 		return nil, fmt.Errorf("no packages loaded from %s", c.Dir)
+	}
+	if !c.RawNames {
+		p.Renamed, p.CanonNotes = p.Canonicalise()
+		p.CanonComparisons()
 	}
 	return p, nil
 }
